@@ -95,8 +95,15 @@ func wcRender(d wcCase) (string, string) {
 		}
 	}
 	root.WriteString("tasks:\n  root:\n")
+	// `silent: true` on every other reference, starting with a bit of the case seed (rendering only: how loud a reference is
+	// says nothing about which execution it belongs to)
+	refNo := int(d.Seed & 1)
 	ref := func(b *strings.Builder, ind string, target string, binds [][2]int, through bool) {
 		fmt.Fprintf(b, "%s- task: %s\n", ind, target)
+		refNo++
+		if refNo%2 == 0 {
+			fmt.Fprintf(b, "%s  silent: true\n", ind)
+		}
 		if len(binds) > 0 {
 			fmt.Fprintf(b, "%s  vars:\n", ind)
 			for _, bd := range binds {
